@@ -416,7 +416,7 @@ def gen_recursive(r, depth=None):
   """One recursive program around a depth; returns (program, family)."""
   d = depth if depth is not None else r.choice(DEPTHS)
   family = r.choice(['counter', 'reach', 'tc', 'cycle2', 'cycle3', 'sp', 'random', 'random',
-                     'bagpaths', 'helper', 'ring', 'ring', 'spw', 'countpaths', 'selfloop2', 'winmove', 'winmove'])
+                     'bagpaths', 'helper', 'ring', 'ring', 'spw', 'countpaths', 'selfloop2', 'winmove', 'winmove', 'ringchord', 'ringchord'])
   around = max(1, d + r.choice([-2, -1, 0, 0, 1, 1, 2, 3]))
   preds = []
   main = None
@@ -469,6 +469,25 @@ def gen_recursive(r, depth=None):
       if i in bases:
         rules_.append(rule([C(0)]))
       rules_.append(rule([V('y')], [[names[(i - 1) % k], [V('x')], None], ['E', [V('x'), V('y')], None]]))
+      preds.append({'name': n, 'arity': 1, 'kind': kr, 'rules': rules_})
+    main = r.choice(names)
+  elif family == 'ringchord':
+    # a directed ring of 3-4 members with one extra edge (a self loop or a chord) that the
+    # annotated member usually does not cut, base facts in a proper subset of the members
+    k = r.choice([3, 3, 4])
+    names = ['A', 'B', 'Cc', 'Dd'][:k]
+    kr = r.choice(['distinct', 'distinct', 'bag'])
+    preds.append({'name': 'E', 'arity': 2, 'kind': 'edb', 'rows': chain(r, around + 2), 'rules': []})
+    bases = set(r.sample(range(k), r.randint(1, k - 1)))
+    extra_to = r.randrange(k)
+    extra_from = r.choice([extra_to] + [j for j in range(k) if j != (extra_to - 1) % k])
+    for i, n in enumerate(names):
+      rules_ = []
+      if i in bases:
+        rules_.append(rule([C(0)]))
+      rules_.append(rule([V('y')], [[names[(i - 1) % k], [V('x')], None], ['E', [V('x'), V('y')], None]]))
+      if i == extra_to:
+        rules_.append(rule([V('y')], [[names[extra_from], [V('x')], None], ['E', [V('x'), V('y')], None]]))
       preds.append({'name': n, 'arity': 1, 'kind': kr, 'rules': rules_})
     main = r.choice(names)
   elif family == 'cycle3':
@@ -661,15 +680,15 @@ def gen_recursive(r, depth=None):
       preds.append(zp)
   recursive = {}
   if d != 8 or r.random() < 0.3:
-    ann = r.choice(members) if family in ('cycle2', 'cycle3', 'random', 'helper', 'ring', 'selfloop2') else main
+    ann = r.choice(members) if family in ('cycle2', 'cycle3', 'random', 'helper', 'ring', 'selfloop2', 'ringchord') else main
     if family == 'winmove':
       ann = r.choice([m for m in members if m in ('Lose', 'Nwm')] + (['Win'] if 'HasMove' in members or 'Lose' not in members else []))
-    elif family not in ('cycle2', 'cycle3', 'random', 'helper', 'ring', 'selfloop2'):
+    elif family not in ('cycle2', 'cycle3', 'random', 'helper', 'ring', 'selfloop2', 'ringchord'):
       ann = [m for m in members if m in ('N', 'R', 'TC', 'D', 'W')][0]
     recursive[ann] = d
     # two annotated members in one component: the smallest annotated name decides
     others = [m for m in members if m != ann]
-    if family in ('cycle2', 'cycle3', 'random', 'helper', 'ring') and others and r.random() < 0.35:
+    if family in ('cycle2', 'cycle3', 'random', 'helper', 'ring', 'ringchord') and others and r.random() < 0.35:
       recursive[r.choice(others)] = max(1, min(d, r.choice([2, 3, 5, 8, d])))
   if second and r.random() < 0.25:
     recursive[[p['name'] for p in preds if p['name'] in ('Z', 'Aa')][0]] = r.choice([3, 5, 11, 12])
